@@ -65,12 +65,12 @@ type jnode struct {
 	vals []*jnode
 }
 
-func jnull() *jnode               { return &jnode{kind: "null"} }
-func jbool(b bool) *jnode         { return &jnode{kind: "bool", b: b} }
-func jnum(lit string) *jnode      { return &jnode{kind: "num", lit: lit} }
-func jstr(s string) *jnode        { return &jnode{kind: "str", s: s} }
-func jarr(xs ...*jnode) *jnode    { return &jnode{kind: "arr", arr: xs} }
-func jobj() *jnode                { return &jnode{kind: "obj"} }
+func jnull() *jnode            { return &jnode{kind: "null"} }
+func jbool(b bool) *jnode      { return &jnode{kind: "bool", b: b} }
+func jnum(lit string) *jnode   { return &jnode{kind: "num", lit: lit} }
+func jstr(s string) *jnode     { return &jnode{kind: "str", s: s} }
+func jarr(xs ...*jnode) *jnode { return &jnode{kind: "arr", arr: xs} }
+func jobj() *jnode             { return &jnode{kind: "obj"} }
 func (o *jnode) set(k string, v *jnode) *jnode {
 	o.keys = append(o.keys, k)
 	o.vals = append(o.vals, v)
